@@ -248,10 +248,20 @@ func genArchive(t *rapid.T, label string, level, maxLevel int) zipgen.Archive {
 
 var generous bool // set per case: every limit at least what the archive needs (so that successes are well represented)
 
+// focus: when set, only that limit may be tight in this case, every other one is huge - so that the accounting behind
+// each limit is exercised alone (with four independent draws, another limit usually refuses the archive first).
+var focus string
+
 func pick(t *rapid.T, label string, exact int64) (int64, string) {
 	choices := []string{"tiny", "exact-1", "exact", "exact", "exact+1", "huge", "huge"}
 	if generous {
 		choices = []string{"exact", "exact", "exact+1", "huge"}
+	}
+	if focus != "" {
+		if label != focus {
+			return 1 << 40, "huge"
+		}
+		choices = []string{"exact-1", "exact-1", "exact", "exact+1"}
 	}
 	how := rapid.SampledFrom(choices).Draw(t, label)
 	switch how {
@@ -285,6 +295,11 @@ func genCase(t *rapid.T) Case {
 	r := reference(&c.Archive, c.Limits.Recursive && c.Limits.Apply)
 	mf, tot, cnt, dep := r.needs()
 	generous = rapid.IntRange(0, 2).Draw(t, "generous") == 0
+	focus = ""
+	if rapid.IntRange(0, 2).Draw(t, "focused") == 0 {
+		focus = rapid.SampledFrom([]string{"l-filesize", "l-total", "l-total", "l-count", "l-depth"}).Draw(t, "focus")
+		generous = false
+	}
 	c.Limits.FileSize, c.How[0] = pick(t, "l-filesize", mf)
 	ts, h := pick(t, "l-total", int64(tot))
 	c.Limits.TotalSize, c.How[1] = uint64(ts), h
